@@ -698,4 +698,101 @@ theorem runMOps_built (ops : List MOp) : ∀ (m m' : Message), Built m → (∀ 
     | err e => rw [ha] at hr; cases hr
     | fault w => rw [ha] at hr; cases hr
 
+
+/-! ## a copy of a built message is the message -/
+
+theorem alFind_of_mem_nodup {β} (l : List (Tag × β)) (h : (alKeys l).Nodup) (p : Tag × β) (hp : p ∈ l) : alFind l p.1 = some p.2 := by
+  induction l with
+  | nil => simp at hp
+  | cons q r ih =>
+    obtain ⟨k, x⟩ := q
+    have hcons : alKeys ((k, x) :: r) = k :: alKeys r := rfl
+    rw [hcons, List.nodup_cons] at h
+    rcases List.mem_cons.1 hp with e | e
+    · subst e; simp [alFind]
+    · have hk : k ≠ p.1 := by
+        intro e'; apply h.1; rw [e']; exact List.mem_map_of_mem e
+      simp [alFind, hk, ih h.2 e]
+
+theorem copy_id {fm : FieldMap} (hi : FMInv fm) (ho : fm.allOwned) (arr : List TagValue) : fm.copy arr = fm := by
+  have : fm.lookup.map (fun p => (p.1, Field.owned (p.2.items arr))) = fm.lookup := by
+    have hid : ∀ p ∈ fm.lookup, (fun p : Tag × Field => (p.1, Field.owned (p.2.items arr))) p = p := by
+      intro p hp
+      obtain ⟨l, hl⟩ := ho p.1 p.2 (alFind_of_mem_nodup _ hi.keysNodup p hp)
+      obtain ⟨k, f⟩ := p
+      simp only at hl; subst hl; rfl
+    rw [List.map_congr_left hid]; simp
+  simp only [FieldMap.copy, this]
+
+/-- a message built through the API holds no parsed field array and no raw buffer -/
+structure Plain (m : Message) : Prop where
+  nofields : m.fields = []
+  noraw : m.raw = none
+
+theorem Plain.new : Plain Message.new := ⟨rfl, rfl⟩
+
+theorem Plain.withSec {m : Message} (h : Plain m) (s : Sec) (fm : FieldMap) : Plain (m.withSec s fm) := by
+  cases s <;> exact ⟨h.nofields, h.noraw⟩
+
+theorem copy_self (m : Message) (hb : Built m) (hp : Plain m) : m.copy Fixes.cur = .ok m := by
+  simp only [Message.copy, copyFM, Fixes.cur, if_true, copy_id hb.inv.h hb.ph.owned, copy_id hb.inv.b hb.pb.owned,
+    copy_id hb.inv.t hb.pt.owned, hp.nofields, List.map_nil]
+  have : m = { header := m.header, body := m.body, trailer := m.trailer, bodyBytes := m.bodyBytes, fields := [], raw := none } := by
+    have h1 := hp.nofields; have h2 := hp.noraw
+    cases m; simp only at h1 h2; subst h1; subst h2; rfl
+  rw [← this]
+
+theorem MOp.apply_plain {m m' : Message} (hb : Built m) (hp : Plain m) (op : MOp) (h : op.apply m = .ok m') : Plain m' := by
+  cases op with
+  | set s t v => rw [setBytes_built_form hb s t v h]; exact hp.withSec _ _
+  | setInt s t v => rw [setBytes_built_form hb s t _ h]; exact hp.withSec _ _
+  | setBool s t v => rw [setBytes_built_form hb s t _ h]; exact hp.withSec _ _
+  | setGroup s t tm es =>
+    simp only [MOp.apply, Message.setGroup] at h
+    split at h
+    · injection h with h; subst h; exact hp.withSec _ _
+    · cases h
+    · cases h
+  | remove s t => simp only [MOp.apply] at h; injection h with h; subst h; exact hp.withSec _ _
+  | clear s => simp only [MOp.apply] at h; injection h with h; subst h; exact hp.withSec _ _
+  | copy =>
+    simp only [MOp.apply] at h
+    rw [copy_self m hb hp] at h; injection h with h; subst h; exact hp
+  | build =>
+    simp only [MOp.apply, Message.build] at h
+    split at h
+    · rename_i r hr
+      split at hr
+      · rename_i m2 hcook
+        injection hr with hr; subst hr; injection h with h; subst h
+        simp only [Message.cook, Message.setInt] at hcook
+        split at hcook
+        · rename_i m1 h1
+          have e1 := setBytes_built_form hb _ _ _ h1
+          have hb1 : Built m1 := hb.setBytes .h 9 _ (fun _ => ⟨fun e => absurd e (by decide), fun _ => rfl⟩) h1
+          have e2 := setBytes_built_form hb1 _ _ _ hcook
+          have p2 : Plain m2 := by rw [e2, e1]; exact (hp.withSec _ _).withSec _ _
+          exact ⟨by simpa [Message.writeAll] using p2.nofields, by simpa [Message.writeAll] using p2.noraw⟩
+        · cases hcook
+        · cases hcook
+      · cases hr
+      · cases hr
+    · cases h
+    · cases h
+
+
+theorem runMOps_plain (ops : List MOp) : ∀ (m m' : Message), Built m → Plain m → (∀ op ∈ ops, op.proper) →
+    runMOps ops m = .ok m' → Built m' ∧ Plain m' := by
+  induction ops with
+  | nil => intro m m' hb hp _ hr; simp only [runMOps] at hr; injection hr with hr; subst hr; exact ⟨hb, hp⟩
+  | cons op r ih =>
+    intro m m' hb hp hpr hr
+    simp only [runMOps] at hr
+    cases ha : op.apply m with
+    | ok m1 =>
+      rw [ha] at hr
+      exact ih m1 m' (MOp.apply_built hb op (hpr op (by simp)) ha) (MOp.apply_plain hb hp op ha) (fun o ho => hpr o (by simp [ho])) hr
+    | err e => rw [ha] at hr; cases hr
+    | fault w => rw [ha] at hr; cases hr
+
 end Qfx
